@@ -188,12 +188,13 @@ def schemes(draw, *, labels="neutral", allow_full=True, max_datasets=4, features
                                   "source_intervals": [_sharp_interval(draw, common, lo_all, hi_all) for _ in range(draw(st.integers(1, 2)))],
                                   "target_intervals": [_sharp_interval(draw, common, lo_all, hi_all) for _ in range(draw(st.integers(1, 2)))],
                                   "weight": draw(st.sampled_from([0.1, 1.0, 3.0]))})
-        constrainable = [l for l in present if l not in related]
-        if constrainable:
-            for _ in range(draw(st.integers(0, 2))):
-                iv = _maybe_intervals(draw, pool)
-                kind = draw(st.sampled_from(["zero", "only"]))
-                constraints.append({"type": kind, "target": draw(st.sampled_from(constrainable)), "interval": iv})
+        # constraints may also hit related clps: on the source, or on the target on another interval, the statement
+        # defines the outcome (source 0 => target p*0; target constrained only where the relation does not apply)
+        for _ in range(draw(st.integers(0, 2))):
+            iv = _maybe_intervals(draw, pool)
+            kind = draw(st.sampled_from(["zero", "only"]))
+            tpool = related if (related and draw(st.booleans())) else present
+            constraints.append({"type": kind, "target": draw(st.sampled_from(tpool)), "interval": iv})
         for _ in range(draw(st.integers(0, 1))):
             k = draw(st.integers(1, len(datasets)))
             wl = draw(st.lists(st.sampled_from([d["label"] for d in datasets]), min_size=k, max_size=k, unique=True))
